@@ -141,8 +141,8 @@ def run(key):
     b = 0.0 if blur == 'onehot' else 0.4
     init = A.partition_affiliation(labels, K, blur=b, lead=lead)
     if gk == 'f32':
-        data = tuple(np.asarray(x).astype(np.complex64 if np.iscomplexobj(x) else np.float32) for x in data) \
-            if integ else data.astype(np.float32)
+        # single precision for the real (vMF) stream; the complex observation of the integration model stays double
+        data = (data[0], np.asarray(data[1]).astype(np.float32)) if integ else data.astype(np.float32)
         init = init.astype(np.float32)
     opts = dict(weight_constant_axis=wca)
     try:
